@@ -107,17 +107,16 @@ func (c *Conn) Close(code StatusCode, reason string) (err error) {
 		}
 		return net.ErrClosed
 	}
-	defer func() {
-		if errors.Is(err, net.ErrClosed) {
-			err = nil
-		}
-	}()
-
 	err = c.closeHandshake(code, reason)
 
 	err2 := c.close()
 	if err == nil && err2 != nil {
 		err = err2
+	}
+	// The connection having been closed already is not an error here, but a failure
+	// to wait for the goroutines below must still be reported.
+	if errors.Is(err, net.ErrClosed) {
+		err = nil
 	}
 
 	err2 = c.waitGoroutines()
@@ -140,13 +139,10 @@ func (c *Conn) CloseNow() (err error) {
 		}
 		return net.ErrClosed
 	}
-	defer func() {
-		if errors.Is(err, net.ErrClosed) {
-			err = nil
-		}
-	}()
-
 	err = c.close()
+	if errors.Is(err, net.ErrClosed) {
+		err = nil
+	}
 
 	err2 := c.waitGoroutines()
 	if err == nil && err2 != nil {
